@@ -191,3 +191,105 @@ Theorem C06_coverage_serializer_reapplied_refuted :
   /\ template_query_nth [form_obj_def] 1 qt = Some [([111], sval [107;44;118])].
 Proof. exact coverage_serializer_reapplied_refuted. Qed.
 Print Assumptions C06_coverage_serializer_reapplied_refuted.
+
+(* ---- configuration histories: one schema object re-configured in place between sends (Model_C06 section 12) *)
+(* the configuration a history ends in is, field by field, the last value written (or the initial one) *)
+Theorem C06_history_configuration_is_last_write : forall rd h s,
+  hs_cfg (exec_with rd s h)
+  = {| cf_base := last_write pick_base h (cf_base (hs_cfg s)); cf_loc := last_write pick_loc h (cf_loc (hs_cfg s));
+       cf_spec := last_write pick_spec h (cf_spec (hs_cfg s)); cf_app := last_write pick_app h (cf_app (hs_cfg s)) |}.
+Proof. exact exec_last_write. Qed.
+Print Assumptions C06_history_configuration_is_last_write.
+
+(* sends, full_path and base_path are functions of the CURRENT configuration, not of the history: two histories that end in
+   the same configuration give the same observation for every event that does not take an operation from the cache *)
+Theorem C06_history_send_depends_on_current_configuration_only : forall c1 c2 h1 h2 e,
+  final_cfg c1 h1 = final_cfg c2 h2 -> uses_cache e = false ->
+  last (run_history (init_state c1) (h1 ++ [e])) ONone = last (run_history (init_state c2) (h2 ++ [e])) ONone.
+Proof. exact history_independence. Qed.
+Print Assumptions C06_history_send_depends_on_current_configuration_only.
+
+(* WSGI: for EVERY history and EVERY operation object (fresh or cached) the path the application receives is the base path of
+   the current configuration joined with the filled template; full_path and base_path likewise *)
+Theorem C06_history_wsgi_path_is_current_base_path : forall c0 h hw tmpl params w r,
+  cf_app (hs_cfg (exec_history (init_state c0) h)) = TWsgi ->
+  snd (hstep (exec_history (init_state c0) h) (EvSend hw tmpl params)) = OSent w r ->
+  exists f, prepare_path tmpl params = FOk f /\ w = expected_path (final_cfg c0 h) f.
+Proof. exact wsgi_wire_current. Qed.
+Print Assumptions C06_history_wsgi_path_is_current_base_path.
+
+Theorem C06_history_full_path_is_current_base_path : forall c0 h tmpl,
+  snd (hstep (exec_history (init_state c0) h) (EvFullPath tmpl)) = OPath (expected_path (final_cfg c0 h) tmpl)
+  /\ snd (hstep (exec_history (init_state c0) h) EvBasePath) = OPath (cfg_base_path (final_cfg c0 h)).
+Proof. exact full_path_current. Qed.
+Print Assumptions C06_history_full_path_is_current_base_path.
+
+(* all three transports: after ANY history, a send whose operation object was made under the present configuration goes to
+   <current base path> + <filled template>, and the reported request URL has exactly that path (the requests transport
+   refuses to send without a netloc).  Region: cfg_ok (base path empty or absolute, no trailing double slash, no dot-dot
+   segment, non-empty base URL text), no dot-dot segment in the filled template *)
+Theorem C06_history_transports_send_to_current_base_url_partial : forall c0 h hw tmpl params f,
+  cfg_ok (final_cfg c0 h) = true ->
+  op_current (final_cfg c0 h) (op_used (exec_history (init_state c0) h) hw tmpl) = true ->
+  prepare_path tmpl params = FOk f -> no_dotdot (lstrip_slash f) = true ->
+  snd (hstep (exec_history (init_state c0) h) (EvSend hw tmpl params)) =
+  if cannot_send (final_cfg c0 h) then ORaises
+  else OSent (expected_path (final_cfg c0 h) f) (reported_prefix (final_cfg c0 h) ++ expected_path (final_cfg c0 h) f).
+Proof. exact history_send_region. Qed.
+Print Assumptions C06_history_transports_send_to_current_base_url_partial.
+
+(* an operation made now (get_all_operations) always satisfies the operation-is-current hypothesis *)
+Theorem C06_history_fresh_operation_is_current : forall c0 h tmpl params f,
+  cfg_ok (final_cfg c0 h) = true -> prepare_path tmpl params = FOk f -> no_dotdot (lstrip_slash f) = true ->
+  snd (hstep (exec_history (init_state c0) h) (EvSend Fresh tmpl params)) =
+  if cannot_send (final_cfg c0 h) then ORaises
+  else OSent (expected_path (final_cfg c0 h) f) (reported_prefix (final_cfg c0 h) ++ expected_path (final_cfg c0 h) f).
+Proof. exact history_fresh_send_region. Qed.
+Print Assumptions C06_history_fresh_operation_is_current.
+
+(* the two ways of building the path agree: urljoin with a netloc (prepare_url) and without (get_full_path) *)
+Theorem C06_urljoin_netloc_irrelevant_partial : forall bpath path,
+  starts_with [47] bpath = true -> no_dotdot bpath = true -> no_dotdot path = true ->
+  urljoin_path true bpath path = urljoin_path false bpath path.
+Proof. exact urljoin_agree. Qed.
+Print Assumptions C06_urljoin_netloc_irrelevant_partial.
+
+(* finding C06-F11: an operation from schema[path][method] made before configure(base_url=..) keeps the old base URL:
+   the requests transport sends to the OLD base URL; the WSGI transport sends to the new one and reports the old one *)
+Theorem C06_history_cached_operation_refuted :
+  let h := [EvBase (base_of s_api); EvSend Cached s_items []; EvBase (base_of s_v2)] in
+  let s := exec_history (init_state (cfg0 TRequests)) h in
+  let c := final_cfg (cfg0 TRequests) h in
+  cfg_ok c = true /\ op_current c (op_used s Cached s_items) = false
+  /\ expected_path c s_items = s_v2 ++ s_items
+  /\ snd (hstep s (EvSend Cached s_items [])) = OSent (s_api ++ s_items) (s_loop ++ s_api ++ s_items)
+  /\ snd (hstep s (EvSend Fresh s_items [])) = OSent (s_v2 ++ s_items) (s_loop ++ s_v2 ++ s_items)
+  /\ (let sw := exec_history (init_state (cfg0 TWsgi)) h in
+      snd (hstep sw (EvSend Cached s_items [])) = OSent (s_v2 ++ s_items) (s_loop ++ s_api ++ s_items)).
+Proof. exact cached_operation_refuted. Qed.
+Print Assumptions C06_history_cached_operation_refuted.
+
+(* finding C06-F12: outside cfg_ok the transports / the reported request disagree: empty base URL text, trailing double slash *)
+Theorem C06_history_base_url_shape_refuted :
+  (let c := {| cf_base := Some {| bu_prefix := []; bu_path := [] |}; cf_loc := []; cf_spec := cf_spec (cfg0 TWsgi); cf_app := TWsgi |} in
+   cfg_ok c = false
+   /\ snd (hstep (init_state c) (EvSend Fresh s_items [])) = OSent (s_srv ++ s_items) (s_http_localhost ++ s_items))
+  /\ (let c := {| cf_base := base_of (s_api ++ [47;47]); cf_loc := []; cf_spec := SpV3 []; cf_app := TWsgi |} in
+      cfg_ok c = false
+      /\ snd (hstep (init_state c) (EvSend Fresh [47] [])) = OSent (s_api ++ [47;47]) (s_loop ++ s_api ++ [47])).
+Proof. exact base_shape_refuted. Qed.
+Print Assumptions C06_history_base_url_shape_refuted.
+
+(* sentinel for the seeded regression C06_c: a base path remembered per schema object (read_memo) keeps WSGI sends and
+   full_path at the first base path after configure(base_url=..); the present rule follows the configuration *)
+Theorem C06_history_base_path_memo_sentinel_refuted :
+  let h := [EvBase (base_of s_api); EvSend Fresh s_items []; EvBase (base_of s_v2); EvSend Fresh s_items []; EvFullPath s_items] in
+  run_history_memo (init_state (cfg0 TWsgi)) h
+  = [ONone; OSent (s_api ++ s_items) (s_loop ++ s_api ++ s_items); ONone;
+     OSent (s_api ++ s_items) (s_loop ++ s_v2 ++ s_items); OPath (s_api ++ s_items)]
+  /\ run_history (init_state (cfg0 TWsgi)) h
+  = [ONone; OSent (s_api ++ s_items) (s_loop ++ s_api ++ s_items); ONone;
+     OSent (s_v2 ++ s_items) (s_loop ++ s_v2 ++ s_items); OPath (s_v2 ++ s_items)]
+  /\ expected_path (final_cfg (cfg0 TWsgi) h) s_items = s_v2 ++ s_items.
+Proof. exact base_path_memo_sentinel_refuted. Qed.
+Print Assumptions C06_history_base_path_memo_sentinel_refuted.
